@@ -10,6 +10,7 @@ LEVEL = "exploration"
 RULE = (
     "parameter grids 2, 3, 2x2, 3x2, 2x2x2 (thorough + 3x3, 2x2x2x2), numeric "
     "and string coordinates, 1-3 variables with / without an internal "
+    "(labelled or unlabelled) "
     "dimension (ignored or not), every assignment of a kind to every "
     "location from {all data, all null, one variable null, partly null along "
     "the internal dimension, +-inf}, both criteria; find_missing_cases and "
@@ -41,9 +42,14 @@ def cases(tier, seed):
         for s in shp:
             L *= s
         for nvars, internal, ignore, ctype, method in itertools.product(
-                (1, 2, 3), (False, True), (False, True), ("num", "str"),
-                ("isnull", "isfinite")):
+                (1, 2, 3), (False, True, "nolabel"), (False, True),
+                ("num", "str"), ("isnull", "isfinite")):
             if ignore and not internal:
+                continue
+            if internal == "nolabel" and (ctype == "str" or (
+                    tier == "quick" and nvars == 1)):
+                # (the internal dimension without coordinate labels is
+                # combined with numeric parameter labels only)
                 continue
             if nvars == 3 and tier == "quick":
                 continue
@@ -108,7 +114,7 @@ def make_ds(case, assign):
                 else:
                     arr[loc] = np.nan
         data[v] = (tuple(names) + (("t",) if has_t else ()), arr)
-    if internal:
+    if internal and internal != "nolabel":
         coords["t"] = [10, 20]
     return xr.Dataset(data, coords=coords), names, coords, locs
 
